@@ -188,9 +188,17 @@ func DecodeHintRecord(buf []byte) ([]byte, *DataPos) {
 }
 
 func DecodeChunk(block []byte) ([]byte, ChunkType, error) {
+	// 有效字节不足以容纳 chunk 头部, 视为不完整的 chunk
+	if len(block) < chunkHeaderSize {
+		return nil, 0, ErrIncompleteChunk
+	}
 	// length
 	length := binary.LittleEndian.Uint16(block[4:6])
 	start, end := chunkHeaderSize, chunkHeaderSize+uint32(length)
+	// 头部记录的长度超出有效字节, 视为不完整的 chunk, 不得越界读取
+	if end > uint32(len(block)) {
+		return nil, 0, ErrIncompleteChunk
+	}
 	checksum := crc32.ChecksumIEEE(block[4:end])
 	savedSum := binary.LittleEndian.Uint32(block[:4])
 	if savedSum != checksum {
